@@ -195,7 +195,7 @@ func replayCaseName(path string) string {
 }
 
 func runOne(c *core.Ctx, cs *Case) *Result {
-	opt := core.ChildOpt{Timeout: 6 * time.Minute, GOMAXPROCS: cs.Procs, Env: []string{"LOG_LEVEL=fatal"}}
+	opt := core.ChildOpt{Timeout: 3 * time.Minute, GOMAXPROCS: cs.Procs, Env: []string{"LOG_LEVEL=fatal"}}
 	res := core.RunChild("case", cs, opt)
 	c.Eval(1)
 	c.Count("cases_"+cs.Kind, 1)
